@@ -135,6 +135,35 @@ InsertAll(t, items, ign) == IF items = <<>> THEN t
 MergeByInsertion(t, u, ign, ord) == InsertAll(t, ItemsSeq(u, ord), ign)
 
 \* ------------------------------------------------------------------------------------------
+\* Trees as DAGs of dict OBJECTS (aliasing).  Python dicts are objects: the same dict can be
+\* the value of two keys, sit at two depths, or hang in t and in u at once.  A heap is a
+\* sequence of nodes (object i = objs[i]); a node maps a key to a cell; a cell is a leaf or
+\* <<"ref", j>> = "the object j".  The property statement speaks of trees: the law level sees
+\* the UNFOLDED tree of an object, and "neither t nor u (at any depth) is modified" speaks of
+\* every object reachable from the operands (each node must be what it was, references included).
+\* ------------------------------------------------------------------------------------------
+IsRefCell(c) == c[1] = "ref"
+RefCell(j)   == <<"ref", j>>
+RefsOf(objs, i) == {objs[i][k][2] : k \in {x \in DOMAIN objs[i] : IsRefCell(objs[i][x])}}
+\* references point to later objects only: the heap is acyclic and Unfold terminates
+Acyclic(objs) == \A i \in 1..Len(objs) : RefsOf(objs, i) \subseteq (i + 1)..Len(objs)
+RECURSIVE Unfold(_, _)
+Unfold(objs, i) == Branch([k \in DOMAIN objs[i] |-> IF IsRefCell(objs[i][k]) THEN Unfold(objs, objs[i][k][2]) ELSE objs[i][k]])
+RECURSIVE Reach(_, _)
+Reach(objs, i) == {i} \cup UNION {Reach(objs, j) : j \in RefsOf(objs, i)}
+\* the domain: acyclic, and below the roots every branch is non-empty (an empty dict may only be a root that hangs nowhere)
+ReachAll(objs, roots) == UNION {Reach(objs, r) : r \in roots}
+HeapOk(objs, roots) == /\ roots \subseteq 1..Len(objs) /\ Acyclic(objs)
+                       /\ \A i \in ReachAll(objs, roots) : \A j \in RefsOf(objs, i) : DOMAIN objs[j] # {}
+\* no garbage: every object of the heap is reachable from a root
+AllReachable(objs, roots) == ReachAll(objs, roots) = 1..Len(objs)
+\* an object that hangs in more than one place (or is both operands): what makes a heap more than a tree
+RECURSIVE Occurrences(_, _, _)
+Occurrences(objs, i, x) == (IF i = x THEN 1 ELSE 0)
+                           + FoldSeq(LAMBDA k, n : n + (IF IsRefCell(objs[i][k]) THEN Occurrences(objs, objs[i][k][2], x) ELSE 0), 0, SetToSeq(DOMAIN objs[i]))
+Shared(objs, roots) == \E x \in 1..Len(objs) : FoldSeq(LAMBDA r, n : n + Occurrences(objs, r, x), 0, SetToSeq(roots)) > 1
+
+\* ------------------------------------------------------------------------------------------
 \* Path patterns:  a pattern is a sequence of parts  <<"lit", s>>  |  <<"var", name>>
 \* (written 's' and '%name' and joined by '/' in the code).  A row assigns a value to every
 \* variable of the pattern.  A row instantiates the pattern to a sequence of values; all but
